@@ -31,7 +31,7 @@ pub fn run(args: &Args, r: &mut Report) {
         "c05-invalid-app-set-never-starts",
     ]);
     r.assume("oneshot_check() performs one unconditional check with default parameters by definition; the consent and validity clauses are judged on start() runs");
-    let n = args.budget(5_000, 100_000);
+    let n = args.budget(30_000, 300_000);
     for i in 0..n {
         if args.skip(i) {
             continue;
